@@ -333,7 +333,7 @@ class Machine:
          ('ret', st, value)            return value to the caller
          ('panic', st, msg)            start unwinding in the calling thread
          ('push', st)                  env pushed frames itself; keep running
-         ('yield', st, name)           preemption point reached (value () is delivered first)
+         ('yield', st, name[, value])  preemption point reached (the value, default (), is delivered first)
          ('block', st, what)           thread cannot proceed (lock held elsewhere) - call is retried later
     """
 
@@ -353,6 +353,7 @@ class Machine:
         s.overflow_mode = 'panic'          # 'panic' (dev profile) | 'wrap' (release profile)
         s.task_mode = True                 # ignore preemption points
         s.fine_points = False              # thread mode: additionally preempt before every access to shared state (lock, atomic, semaphore)
+        s.allow_block = False              # a thread that finds a lock held elsewhere stops (at_point blocked) and retries when scheduled again
         s.record_queries = False
 
     # ---------------- solver
@@ -497,7 +498,7 @@ class Machine:
             if en in s.enums and m.group(2) in s.enums[en]: return mk_enum(en, m.group(2))
         r = s.env.const(s, c)
         if r is not None: return r
-        f = s.fns.get('const ' + c) or next((s.fns[n] for n in s.fns if n.startswith('const ') and n.endswith('::' + c.split('::')[-1]) and n.split('::')[-1] == c.split('::')[-1]), None)
+        f = s.fns.get('const ' + c) or next((s.fns[n] for n in s.fns if n.startswith('const ') and (n == 'const ' + c.split('::')[-1] or n.endswith('::' + c.split('::')[-1]))), None)
         if f is not None:
             # a named constant: its body must be a single `_0 = const X; return`
             bl = blocks_of(f)
@@ -745,12 +746,11 @@ class Machine:
     # ---------------- calls
     def do_call(s, st, th, fr, term):
         _, dest, callee, argops, ret, unw = term
-        if s.fine_points and not s.task_mode:
-            if fr.skip:
-                fr.skip = 0
-            elif s.env.is_shared_access(callee):
-                fr.skip = 1; th.at_point = 'sync:' + model_key(callee)[-40:]
-                return [(st, 'stop')]
+        if fr.skip:
+            fr.skip = 0          # the call is being retried after a preemption / after blocking
+        elif s.fine_points and not s.task_mode and s.env.is_shared_access(callee):
+            fr.skip = 1; th.at_point = 'sync:' + model_key(callee)[-40:]
+            return [(st, 'stop')]
         args = [s.operand(st, fr, a) for a in argops]
         if callee.startswith(('move ', 'copy ')):
             # indirect call through a fn pointer / closure value held in a local
@@ -786,7 +786,7 @@ class Machine:
             elif kind == 'raw':
                 res.extend(o[1]); continue
             elif kind == 'yield':
-                r = s.deliver(st2, th2, UNIT)
+                r = s.deliver(st2, th2, o[3] if len(o) > 3 else UNIT)
                 if s.task_mode:
                     res.extend(r if r is not None else [(st2, None)])
                 else:
@@ -796,7 +796,7 @@ class Machine:
             elif kind == 'block':
                 if o[2] == 'self-deadlock':
                     th2.stack.clear(); th2.result = ('deadlock',); res.append((st2, 'stop')); continue
-                if not s.fine_points:
+                if not (s.fine_points or s.allow_block):
                     raise InternalError('thread blocks on a lock held by another thread: schedule points must lie outside lock regions')
                 # retry the lock call when the thread is scheduled again (its operands are references: re-evaluation is harmless)
                 th2.stack[-1].skip = 1; th2.at_point = ('blocked', o[3] if len(o) > 3 else None); res.append((st2, 'stop'))
@@ -890,11 +890,11 @@ class Machine:
         while pending:
             v = pending.pop(0)
             if not isinstance(v, Agg) or v is UNIT: continue
+            fr.data = (tuple(pending), None)      # before the model destructor runs: it may fork (clone) the state
             r = s.env.drop(s, st, th, v)
             if r is True: continue
             if r is not None:
                 # env returned outcomes (e.g. forked or panicking destructor)
-                fr.data = (tuple(pending), None)
                 return s.apply_outcomes(r, th.name)
             if v.ty.startswith('{coroutine'):
                 shim = s.drop_shims.get(v.variant)
